@@ -63,6 +63,8 @@ INT_OK = {"exp": [0, 1, -1, 2 ** 63 - 1, -(2 ** 63), 2592001], "flags": [None, 0
           "cas": [0, 1, U64 - 1, b"123", "456"], "delta": [0, 1, U64 - 1]}
 INT_BAD = {"exp": ["10", 1.5, None, b"3"], "cas": ["abc", -1, 1.5, None, b"1 2"], "delta": ["1", 2.0, None]}
 
+RAW_MAX = 12000
+
 STORE1 = ["set", "add", "replace", "append", "prepend", "cas"]
 SINGLE = ["get", "gets", "gat", "gats", "delete", "incr", "decr", "touch"]
 MULTI = ["set_many", "get_many", "gets_many", "delete_many"]
@@ -142,6 +144,12 @@ def run_case(c, stacks):
           "cas": dec(c.cas), "delta": dec(c.delta), "badarg": c.badarg or vb is None,
           "data": [desc(vb) if vb is not None else "?"] * nkeys, "lens": [str(len(vb)) if vb is not None else "?"] * nkeys,
           "outcome": outcome, "nsent": len(raw), "cmds": cmds, "leftover": p.partial}
+    # the bytes themselves, for the TLA+ tokenizer (spec/Proto.tla)
+    ev["hasraw"] = len(raw) <= RAW_MAX
+    ev["raw"] = list(raw) if ev["hasraw"] else []
+    ev["vals"] = [list(vb)] * nkeys if (vb is not None and ev["hasraw"]) else []
+    for name, x in (("expb", c.exp), ("flagsb", flags), ("casb", c.cas), ("deltab", c.delta)):
+        ev[name] = list(dec(x).encode("latin1", "replace"))
     return ev
 
 
@@ -270,6 +278,7 @@ def main(tier, rep):
             cache[key] = (net, cl)
         return cache[key]
 
+    grammar_model(tier, rep)
     cases = gen_cases(tier, common.seed())
     evs = []
     for c in cases:
@@ -312,6 +321,60 @@ def main(tier, rep):
     rep.assumptions += ["lib/wire.py is the strict parser (memcached's tokenizer: line at LF, split at spaces, exact data block + CRLF)",
                         "data blocks are compared through (length, sha256) descriptors; flags are exercised with integers only",
                         "bool is not treated as a non-integer"]
+
+
+def protorec(c):
+    """a lib/wire.py command in the all-bytes record shape of spec/Proto.tla"""
+    if "error" in c:
+        return {"verb": "PARSE-ERROR"}
+    v = c["verb"].decode("latin1")
+    num = lambda x: list(str(x).encode())   # noqa
+    if c["verb"] in wire.STORAGE:
+        return {"verb": v, "key": list(c["key"]), "flags": num(c["flags"]), "exptime": num(c["exptime"]), "data": list(c["data"]),
+                "noreply": c["noreply"], "cas": num(c["cas"]) if "cas" in c else []}
+    if v in ("get", "gets"):
+        return {"verb": v, "keys": [list(k) for k in c["keys"]], "exptime": [], "noreply": False}
+    if v in ("gat", "gats"):
+        return {"verb": v, "keys": [list(k) for k in c["keys"]], "exptime": num(c["exptime"]), "noreply": False}
+    if v == "delete":
+        return {"verb": v, "key": list(c["key"]), "noreply": c["noreply"]}
+    if v in ("incr", "decr"):
+        return {"verb": v, "key": list(c["key"]), "delta": num(c["delta"]), "noreply": c["noreply"]}
+    if v == "touch":
+        return {"verb": v, "key": list(c["key"]), "exptime": num(c["exptime"]), "noreply": c["noreply"]}
+    if v == "flush_all":
+        return {"verb": v, "delay": num(c["delay"]), "noreply": c["noreply"]}
+    return {"verb": "PARSE-ERROR"}
+
+
+def grammar_model(tier, rep):
+    """spec/ProtoMC.tla: the request grammar is unambiguous (RoundTrip, Concatenation, Prefix) and a space / LF in a key
+    breaks it (Injection); every universe member is exported with its bytes and what Proto.tla's tokenizer reads, and the
+    harness's own Python parser (lib/wire.py, the reference server's reader) must read the same."""
+    keylen = 1 if tier == "quick" else 2
+    r = tlc.run("ProtoMC", cfg_text=f"SPECIFICATION Spec\nCONSTANTS\n  KeyLen = {keylen}\nINVARIANT RoundTrip\nINVARIANT Concatenation\n"
+                                     "INVARIANT Injection\nINVARIANT Prefix\nCHECK_DEADLOCK FALSE\n", workers=16, timeout=3000)
+    if r.error:
+        raise common.MachineryError(r.error)
+    if not r.ok:
+        rep.violation("C02/model/" + ",".join(r.invariants_violated), "the protocol grammar of spec/Proto.tla is not what ProtoMC states",
+                      tlc.first_error_trace(r))
+    rows = r.json_lines("EXP")
+    if len(rows) < 1000:
+        raise common.MachineryError("ProtoMC exported %d rows" % len(rows))
+    rep.set("states", r.distinct)
+    rep.set("transitions", r.generated)
+    rep.set("checker_cmd", r.cmd)
+    bad = 0
+    for row in rows:
+        p = wire.Parser()
+        got = [protorec(x) for x in p.feed(bytes(row["bytes"]))]
+        want = [({"verb": "PARSE-ERROR"} if x["verb"] == "PARSE-ERROR" else x) for x in row["tok"]["cmds"]]
+        if got != want or (p.partial == 0) != (row["tok"]["left"] == 0):
+            bad += 1
+            if bad <= 3:
+                raise common.MachineryError("lib/wire.py and spec/Proto.tla read %r differently: %r vs %r" % (bytes(row["bytes"]), got, want))
+    rep.set("grammar_universe_cross_checked_with_python_parser", len(rows))
 
 
 def _legal(k, ev):
